@@ -41,9 +41,10 @@ func runC04(c *Ctx) {
 	r.Rule("C04.R2", "who-may: the handler is loaded/invoked only in negotiationNeededOp and stored only by OnNegotiationNeeded; [[NegotiationNeeded]] is set true only in negotiationNeededOp and cleared only there and in setDescription, where (tabulated) the clear and the re-check happen exactly on a successful transition into stable, clear first; negotiationNeededOp is referenced only as the operation onNegotiationNeeded enqueues", 152)
 	r.Rule("C04.R3", "every return of AddTrack, RemoveTrack, AddTransceiverFromKind, AddTransceiverFromTrack and CreateDataChannel whose error may be nil has called onNegotiationNeeded (directly or through a helper such as addRTPTransceiver)", 5)
 	r.Rule("C04.R4", "onNegotiationNeeded enqueues negotiationNeededOp iff the operations chain is empty and otherwise arms the deferred flag; operations.start reads the deferred flag only after pop() returned nil (queue drained), clears it before calling back, and calls back iff it was set; the constructor wires the callback and the flag into the queue", 6)
+	r.Rule("C04.R5", "checkNegotiationNeeded: true when there is no current local description; the loop over pc.rtpTransceivers is left early only by `return true`; an iteration goes on to the next transceiver only after its m-section was found in the current local description (step 5.2) and the branch on localDesc.Type (direction vs description, steps 5.3.2/5.3.3) was passed, except through the reviewed skip 'sender's track is nil'", 4)
 	r.NotCovered = append(r.NotCovered,
 		"liveness/timing: that the enqueued operation eventually runs and the event fires 'once the connection is stable'",
-		"completeness of checkNegotiationNeeded (which changes count as requiring negotiation)",
+		"the value-level comparisons of checkNegotiationNeeded (msid / direction attribute contents); C04.R5 decides only that every transceiver is examined",
 		"races between IsEmpty and Enqueue / between the state test and the handler call (the quantifier is sequential)")
 	r.Trusted = append(r.Trusted, "W3C webrtc §4.7.3 'update the negotiation-needed flag' steps as transcribed in props/c04.go", "absint soundness on the supported fragment")
 
@@ -66,6 +67,7 @@ func runC04(c *Ctx) {
 	c04R2(c, op, onNeg, setter, setDesc, handlerF, flagF, states)
 	c04R3(c, onNeg)
 	c04R4(c, op, onNeg, deferredF)
+	c04R5(c) // c04b.go
 	c13DebugDump(c)
 }
 
